@@ -1,0 +1,70 @@
+//go:build verif
+
+// Contracts for PersistentBlockList, part 2: uploads (epoch tagging) and the
+// persistent state (properties C02, C03, C07). Comment-only file.
+package local
+
+//@ iface BlockPutWriter.call
+//@   modifies nothing
+//@   ensures result != nil
+
+//@ func (*PersistentBlockList).Get
+//@   requires pblInv(bl) && 0 <= index && index < len(bl.blocks) && bl.blocks[index].block != nil
+//@ func (*PersistentBlockList).HasSpace
+//@   requires pblInv(bl) && 0 <= index && index < len(bl.blocks) && bl.blocks[index].block != nil
+//@ func (*PersistentBlockList).Put
+//@   requires pblInv(bl) && 0 <= index && index < len(bl.blocks) && bl.blocks[index].block != nil && sizeBytes >= 0
+//@   ensures [unchanged] pblInv(bl)
+
+// Writer closure of a closed list: the buffer is discarded (C03 K03.1).
+//@ func (*PersistentBlockList).Put$1
+//@   requires b != nil
+//@ func (*PersistentBlockList).Put$1$1
+//@   ensures [refused] result1 != nil
+
+//@ func (*PersistentBlockList).Put$2
+//@   requires b != nil && putWriter != nil
+
+// The finalizer (runs under the write lock, possibly after rotations). An upload
+// is acknowledged only if the list is still open for writing and its block is
+// still there; it then belongs to an epoch that the next data sync covers: if
+// no epoch is open (all epochs are already being synchronised) or the open one
+// ends before this block, a new epoch is opened (C02 K02.3).
+//@ func (*PersistentBlockList).Put$2$1
+//@   opt contents int
+//@   requires pblInv(bl) && putFinalizer != nil && sizeBytes >= 0 && absoluteBlockIndex >= 0
+//@   requires [stable] absoluteBlockIndex < bl.totalBlocksReleased + len(bl.blocks)
+//@   exitghost prefA(bl, bl.totalBlocksReleased + len(bl.blocks)) := old(prefA(bl, bl.totalBlocksReleased + len(bl.blocks))) + 1
+//@         when len(bl.epochHashSeeds) > old(len(bl.epochHashSeeds))
+//@   ensures [inv] pblInv(bl)
+//@   ensures [refused-when-closed] bl.closedForWriting ==> result1 != nil
+//@   ensures [untouched-on-error] result1 != nil ==> unchanged(len(bl.epochHashSeeds)) && unchanged(bl.synchronizingEpochs)
+//@         && (forall i :: 0 <= i && i < len(bl.blocks) ==> unchanged(bl.blocks[i].writtenOffsetBytes))
+//@   ensures [epoch-open] result1 == nil ==> len(bl.epochHashSeeds) > bl.synchronizingEpochs
+//@   ensures [epoch-covers-block] result1 == nil ==> bl.epochLastAbsoluteBlockIndex[len(bl.epochLastAbsoluteBlockIndex) - 1] >= absoluteBlockIndex
+//@   ensures [written-recorded] result1 == nil ==> absoluteBlockIndex >= bl.totalBlocksReleased
+//@         && bl.blocks[absoluteBlockIndex - bl.totalBlocksReleased].writtenOffsetBytes >= result0 + sizeBytes
+//@   ensures [wakes-syncer] result1 == nil ==> !bl.blockPutWakeup.isBlocking
+
+//@ func (*PersistentBlockList).GetBlockReleaseWakeup
+//@   ensures result == bl.blockReleaseWakeup.channel
+//@ func (*PersistentBlockList).GetBlockPutWakeup
+//@   ensures result == bl.blockPutWakeup.channel
+
+// The state handed to the store lists a prefix of the blocks with the offsets
+// and epochs whose data is known to be durable (synchronised), never more.
+//@ func (*PersistentBlockList).GetPersistentState
+//@   opt contents
+//@   requires pblInv(bl)
+//@   ensures [inv] pblInv(bl)
+//@   ensures [marks-releasable] bl.blocksReleasing == len(bl.blocksToRelease)
+//@   ensures [prefix] len(result1) <= len(bl.blocks)
+//@   ensures [only-durable-offsets] forall k :: 0 <= k && k < len(result1) ==>
+//@         result1[k] != nil && result1[k].WriteOffsetBytes == bl.blocks[k].synchronizedOffsetBytes
+//@   loop 0 invariant 0 <= blockIndex && blockIndex <= len(bl.blocks) && 0 <= lastEpochIndex && lastEpochIndex <= bl.synchronizedEpochs
+//@   loop 0 invariant lastEpochIndex <= prefA(bl, bl.totalBlocksReleased + blockIndex) - prefA(bl, bl.totalBlocksReleased)
+//@   loop 0 invariant lastEpochIndex == prefA(bl, bl.totalBlocksReleased + blockIndex) - prefA(bl, bl.totalBlocksReleased)
+//@         || lastEpochIndex == bl.synchronizedEpochs
+//@   loop 0 invariant len(blocks) == blockIndex
+//@   loop 0 invariant forall k :: 0 <= k && k < len(blocks) ==> blocks[k] != nil && allocated(blocks[k]) && blocks[k].WriteOffsetBytes == bl.blocks[k].synchronizedOffsetBytes
+//@   loop 0 invariant pblInv(bl) && unchanged(bl.blocksReleasing)
